@@ -706,13 +706,16 @@ pub fn gen_entries(rng: &mut Rng, n: usize, allow_leaf_ptrs: bool, wide: bool) -
             0
         } else if wide && rng.chance(1, 50) {
             *rng.pick(&[u32::MAX, 1 << 31, 65536])
+        } else if wide && rng.chance(1, 40) {
+            // varint width boundaries of the 32-bit columns
+            *rng.pick(&[127u32, 128, 16_383, 16_384, (1 << 21) - 1, 1 << 21, (1 << 28) - 1, 1 << 28, (1 << 28) + 1])
         } else if rng.chance(1, 4) {
             rng.range(2, 40) as u32
         } else {
             1
         };
-        let length: u32 = if wide && rng.chance(1, 50) {
-            *rng.pick(&[u32::MAX, 1 << 31, 127, 128, 16383, 16384])
+        let length: u32 = if wide && rng.chance(1, 25) {
+            *rng.pick(&[u32::MAX, 1 << 31, 127, 128, 16383, 16384, (1 << 21) - 1, 1 << 21, (1 << 21) + 1, (1 << 28) - 1, 1 << 28, (1 << 28) + 1])
         } else {
             rng.log_range(1, 1 << 20) as u32
         };
@@ -740,6 +743,11 @@ pub fn gen_entries(rng: &mut Rng, n: usize, allow_leaf_ptrs: bool, wide: bool) -
                     rng.below(1 << 40)
                 }
             }
+        };
+        let (offset, length) = match v.last() {
+            // a valid but not minimal list: this entry continues its predecessor's run (same bytes, next id) without being merged
+            Some(p) if rng.chance(1, 30) && p.run_length > 0 && run > 0 && p.tile_id + u64::from(p.run_length) == id => (p.offset, p.length),
+            _ => (offset, length),
         };
         v.push(REntry {
             tile_id: id,
